@@ -4,6 +4,7 @@ the exact Fraction oracle shared with c01.py."""
 import itertools, math, subprocess, tempfile, warnings
 import numpy as np
 from common import *
+import common
 
 IMPORTS = "From Coq Require Import Qabs Arith.\nFrom QE Require Import C09.Solve C09.Model."
 FINISH = dict(level="proof", technique_note=(
@@ -669,7 +670,7 @@ def constructor_rejection(ctx, thorough):
         json.dump(cases, open(inp, "w")); open(script, "w").write(SUB)
         env = dict(os.environ, NUMBA_BOUNDSCHECK="1", NUMBA_CACHE_DIR=os.path.join(VERIF, ".cache", "numba_boundscheck"),
                    PYTHONPATH=REPO)
-        rc, out = _run(["/venv/bin/python", script, inp, outp], env=env, timeout=600)
+        rc, out = common._run(["/venv/bin/python", script, inp, outp], env=env, timeout=600)
         if rc != 0 or not os.path.exists(outp):
             raise RuntimeError("bounds-checked subprocess failed: " + out[-2000:])
         res = json.load(open(outp))
